@@ -194,3 +194,126 @@ func sweepStall(yield func(stallCase) bool) {
 		}
 	}
 }
+
+// A discovery that first has to wait for the shared fixed bind port - another call of the same application holds it for
+// HoldPct % of the timeout - collects replies for its whole window once it has the port: the controllers answer DelayPct % of
+// the timeout after they have seen the discovery request.
+type queuedCase struct {
+	WindowMs   int  `json:"window_ms"`
+	HoldPct    int  `json:"port_held_for_percent_of_timeout"`
+	DelayPct   int  `json:"replies_after_percent_of_timeout"`
+	N          int  `json:"controllers"`
+	TwoClients bool `json:"two_clients,omitempty"` // the call that holds the port is made by another client with the same bind address
+}
+
+func checkQueued(c queuedCase) *rp.Fail {
+	f := runQueued(c)
+	if f != nil {
+		c2 := c
+		c2.WindowMs = 3 * c.WindowMs
+		if f2 := runQueued(c2); f2 == nil {
+			ev.Inconclusive(1)
+			return nil
+		} else {
+			f = f2
+		}
+	}
+	return f
+}
+
+func runQueued(c queuedCase) *rp.Fail {
+	ev.Case("discovery-queued-for-the-bind-port", true, fmt.Sprint(c))
+	f := farm.New()
+	defer f.Close()
+	W := time.Duration(c.WindowMs) * time.Millisecond
+	holderSeen := make(chan struct{}, 4)
+	holder, err := f.UDP([4]byte{127, 0, 2, 21}, 0, farm.Script(func(r farm.Received) []farm.Action {
+		if len(r.Data) != 64 {
+			return nil
+		}
+		d := make([]byte, 64)
+		spec.Header(d, 0x17, r.Data[1], spec.LE32(r.Data[4:]))
+		spec.PutDateTime(d[8:], spec.CivilDT{Y: 2024, M: 6, D: 1, H: 12, Mi: 0, S: 0})
+		select {
+		case holderSeen <- struct{}{}:
+		default:
+		}
+		return []farm.Action{{Delay: W * time.Duration(c.HoldPct) / 100, Data: d}}
+	}))
+	if err != nil {
+		return nil
+	}
+	bcast, err := f.UDP([4]byte{127, 0, 2, 22}, 0, farm.Script(func(r farm.Received) []farm.Action {
+		var a []farm.Action
+		for i := 0; i < c.N; i++ {
+			d := make([]byte, 64)
+			spec.Header(d, 0x17, 0x94, uint32(420000000+i))
+			copy(d[8:], []byte{192, 168, 1, byte(i + 1), 255, 255, 255, 0, 192, 168, 1, 1, 0, 0x66, 0x19, 0x39, 0, byte(i), 0x08, 0x92, 0x20, 0x18, 0x08, 0x16})
+			delay := time.Duration(0)
+			if i == 0 {
+				delay = W * time.Duration(c.DelayPct) / 100
+			}
+			a = append(a, farm.Action{Delay: delay, Data: d})
+		}
+		return a
+	}))
+	if err != nil {
+		return nil
+	}
+	port, err := farm.FreePort([4]byte{127, 0, 0, 1})
+	if err != nil {
+		return nil
+	}
+	cfg := hook.ClientCfg{TimeoutMs: c.WindowMs, BindIP: [4]byte{127, 0, 0, 1}, BindPort: port, HasBroadcast: true, BroadcastIP: [4]byte{127, 0, 2, 22}, BroadcastPort: bcast.Addr.Port(),
+		Devices: []hook.DeviceCfg{{Serial: 405419896, HasAddr: true, IP: [4]byte{127, 0, 2, 21}, Port: holder.Addr.Port(), Protocol: "udp"}}}
+	u := hook.Real(cfg)
+	h := u
+	if c.TwoClients {
+		h = hook.Real(cfg)
+	}
+	held := make(chan error, 1)
+	go func() {
+		_, err := h.GetTime(405419896)
+		held <- err
+	}()
+	select {
+	case <-holderSeen:
+	case <-time.After(W + 5*time.Second):
+		return nil
+	}
+	started := time.Now()
+	var list []types.Device
+	var pn any
+	func() {
+		defer func() { pn = recover() }()
+		list, err = u.GetDevices()
+	}()
+	elapsed := time.Since(started)
+	<-held
+	if pn != nil {
+		return rp.Failf("socket/panic", "GetDevices panicked: %v", pn)
+	}
+	if err != nil {
+		return rp.Failf("socket/queued-discovery/call-failed", "GetDevices failed: %v", err)
+	}
+	if len(list) != c.N {
+		return rp.Failf("socket/queued-discovery/wrong-count", "a discovery that waited %d %% of the timeout (%v) for the shared bind port: %d controllers answered %d %% of the timeout after seeing its request, GetDevices returned %d controllers after %v", c.HoldPct, W, c.N, c.DelayPct, len(list), elapsed)
+	}
+	return nil
+}
+
+func sweepQueued(yield func(queuedCase) bool) {
+	cases := []queuedCase{{WindowMs: 500, HoldPct: 80, DelayPct: 50, N: 2}, {WindowMs: 400, HoldPct: 90, DelayPct: 30, N: 3, TwoClients: true}}
+	if ev.Thorough() {
+		for _, hold := range []int{30, 60, 95} {
+			for _, delay := range []int{10, 45, 75} {
+				cases = append(cases, queuedCase{WindowMs: 450, HoldPct: hold, DelayPct: delay, N: 1 + (hold+delay)%3, TwoClients: (hold+delay)%2 == 0})
+			}
+		}
+	}
+	for i, c := range cases {
+		if ev.Mine(i+1) && !yield(c) {
+			return
+		}
+	}
+}
